@@ -274,6 +274,13 @@ pub fn gen_seq(property: &str, profile: &str, seed: u64) -> Plan {
     let mut s = SessionPlan::sequential(ops);
     s.lazy_init = sw.rng.chance(1, 5);
     plan.sessions.push(s);
+    if profile.split('+').any(|f| f == "readfault") {
+        // EIO on the n-th read of an index file (bloom bytes probed from the file after an offload,
+        // on-disk index lookups): a query may fail, it must never answer "absent" for a stored key
+        for _ in 0..sw.rng.range(1, 4) {
+            plan.faults.push(FaultSpec { session: 0, sel: Sel::Nth { kind: IoKind::Read, class: PathClass::Index, n: sw.rng.below(150) }, action: FaultAction::Fail { errno: crate::world::EIO } });
+        }
+    }
     plan
 }
 
